@@ -9,6 +9,7 @@ import (
 	"path/filepath"
 	"strconv"
 	"strings"
+	"time"
 
 	"golang.org/x/tools/go/ssa"
 
@@ -54,6 +55,7 @@ func main() {
 		fmt.Println(string(b))
 	}
 
+	t0 := time.Now()
 	p, err := an.Load(*repo, nil)
 	if err != nil {
 		fmt.Fprintf(os.Stderr, "mwcheck: cannot analyse %s: %v\n", *repo, err)
@@ -73,6 +75,7 @@ func main() {
 		os.Exit(2)
 	}
 	c := report.New(p, *id, *tier, seed, verifDir)
+	c.Start = t0
 	c.Explain = ch.Explain
 	c.NotDecided = ch.NotDec
 	func() {
